@@ -233,6 +233,12 @@ def poison_sites(K):
         for badname in (1, 1.5, None, True):
             # an image NAME that is not text, next to the ordinary ones
             sites.append({"kind": "image-name", "platform": platform, "name": badname})
+    for platform in sorted(K["images"])[:1]:
+        for badname in ("efi=boot.img", "a:b", "#hash", "[x]", "two\nlines"):
+            # text the file syntax cannot carry as an option name (unspecified for writing; a REFUSAL must still be harmless)
+            sites.append({"kind": "image-name", "platform": platform, "name": badname})
+    for badpath in ("images/efi=boot.img", "c:/x", "# x"):
+        sites.append({"kind": "checksum-abs", "path": badpath, "ctype": "sha256", "value": "0" * 64})
     sites.append({"kind": "image-unref", "platform": "nowhere"})
     for p in PLATFORMS + pools.ARCHES[:3]:
         # ...also a platform that OTHER trees of the same process list, but this one does not
